@@ -114,6 +114,10 @@ func init() {
 		},
 		"fmt.Sprint":   func(fr *frame, a []value) value { return fmtNative("", false, sliceArg(a[0])) },
 		"fmt.Sprintln": func(fr *frame, a []value) value { return fmtNative("", false, sliceArg(a[0])) + "\n" },
+		// tendermint/iavl's package initialiser builds a dot-graph template nobody in scope uses
+		"text/template.New":               func(fr *frame, a []value) value { var p *value; return p },
+		"(*text/template.Template).Parse": func(fr *frame, a []value) value { return tuple{a[0], iface{}} },
+		"text/template.Must":              func(fr *frame, a []value) value { return a[0] },
 		"fmt.Errorf": func(fr *frame, a []value) value {
 			f, ok := a[0].(string)
 			if !ok {
@@ -136,12 +140,6 @@ func init() {
 		"runtime/debug.Stack":      func(fr *frame, a []value) value { return []value(nil) },
 		"runtime/debug.PrintStack": nop,
 
-		"(*sync.Mutex).Lock":      nop,
-		"(*sync.Mutex).Unlock":    nop,
-		"(*sync.RWMutex).Lock":    nop,
-		"(*sync.RWMutex).Unlock":  nop,
-		"(*sync.RWMutex).RLock":   nop,
-		"(*sync.RWMutex).RUnlock": nop,
 		"(*sync.Once).Do": func(fr *frame, a []value) value {
 			p := a[0].(*value)
 			if fr.i.onceDone[p] {
@@ -229,6 +227,43 @@ func init() {
 			}
 		}
 		return -1
+	}
+	// strings.Count / strings.Index over a string with symbolic bytes: single concrete separator byte only
+	sepByte := func(v value) (uint8, bool) {
+		if s, ok := v.(string); ok && len(s) == 1 {
+			return s[0], true
+		}
+		return 0, false
+	}
+	externals["strings.Count"] = func(fr *frame, a []value) value {
+		if s, ok := a[0].(string); ok {
+			if sep, ok := a[1].(string); ok {
+				return strings.Count(s, sep)
+			}
+		}
+		b, ok := sepByte(a[1])
+		if !ok {
+			unsup("strings.Count over symbolic bytes with a separator that is not one concrete byte")
+		}
+		n := 0
+		for _, c := range byteCells(a[0]) {
+			if fr.i.condBool(fr.i.eqv(types.Typ[types.Uint8], c, b)) {
+				n++
+			}
+		}
+		return n
+	}
+	externals["strings.Index"] = func(fr *frame, a []value) value {
+		if s, ok := a[0].(string); ok {
+			if sep, ok := a[1].(string); ok {
+				return strings.Index(s, sep)
+			}
+		}
+		b, ok := sepByte(a[1])
+		if !ok {
+			unsup("strings.Index over symbolic bytes with a separator that is not one concrete byte")
+		}
+		return indexByte(fr, []value{a[0], b})
 	}
 	for k, v := range map[string]externalFn{
 		"internal/bytealg.Compare":         cmp,
@@ -400,6 +435,17 @@ func init() {
 			}
 			return bytesVal(js), ""
 		}
+		// a token written by encoding/json: its 64-bit integers are JSON numbers and pass through float64
+		if bs, ok := a[0].([]value); ok && len(bs) == 1 {
+			if box, ok := bs[0].(boxCell); ok && box.kind == "gojson" {
+				changed := false
+				nv := fr.i.jsonFloatRound(box.t, box.v, &changed)
+				if changed {
+					fr.i.m.Stubs["types.SortJSON: float64 rounding of encoding/json integer numbers"]++
+					return []value{boxCell{kind: "gojson", t: box.t, v: nv}}, ""
+				}
+			}
+		}
 		return a[0], ""
 	}
 	externals[RepoMod+"/types.SortJSON"] = func(fr *frame, a []value) value {
@@ -555,39 +601,56 @@ func init() {
 	}
 }
 
-// tendermint/iavl proof ops: opaque (the cryptographic content of range proofs is outside every claim)
+// mintkey armor (scrypt + AES-GCM): an opaque one-cell string token (private key, passphrase); decryption succeeds
+// iff the passphrase equals the one used for encryption (authenticity of AES-GCM and determinism of scrypt assumed).
 func init() {
-	mkOp := func(kind string) externalFn {
-		return func(fr *frame, a []value) value {
-			pkg := fr.i.prog.ImportedPackage("github.com/tendermint/iavl")
-			t := pkg.Type(kind).Type()
-			v := zero(t).(structure)
-			v[0] = a[0] // key
-			v[1] = a[1] // proof
-			return v
-		}
+	const mk = RepoMod + "/crypto/keys/mintkey."
+	externals[mk+"EncryptArmorPrivKey"] = func(fr *frame, a []value) value {
+		tok := boxCell{kind: "armor", v: tuple{a[0], a[1]}}
+		return tuple{symStr{[]value{tok}}, iface{}}
 	}
-	externals["github.com/tendermint/iavl.NewIAVLValueOp"] = mkOp("IAVLValueOp")
-	externals["github.com/tendermint/iavl.NewIAVLAbsenceOp"] = mkOp("IAVLAbsenceOp")
-	proofOp := func(typ string) externalFn {
-		return func(fr *frame, a []value) value {
-			op := a[0].(structure)
-			pt := fr.i.prog.ImportedPackage("github.com/tendermint/tendermint/crypto/merkle").Type("ProofOp").Type()
-			st := pt.Underlying().(*types.Struct)
-			out := zero(pt).(structure)
-			for j := 0; j < st.NumFields(); j++ {
-				switch st.Field(j).Name() {
-				case "Type":
-					out[j] = typ
-				case "Key":
-					out[j] = op[0]
-				case "Data":
-					out[j] = []value{boxCell{kind: "iavlproof:" + typ, v: tuple{op[0]}}}
-				}
-			}
-			return out
+	externals[mk+"UnarmorDecryptPrivKey"] = func(fr *frame, a []value) value {
+		var nilKey value = iface{}
+		s, ok := a[0].(symStr)
+		if !ok || len(s.cells) != 1 {
+			return tuple{nilKey, fr.i.mkError("mintkey: cannot decode armor")}
 		}
+		tok, ok := s.cells[0].(boxCell)
+		if !ok || tok.kind != "armor" {
+			return tuple{nilKey, fr.i.mkError("mintkey: cannot decode armor")}
+		}
+		tp := tok.v.(tuple)
+		_, eq := fr.i.cmpCells(strCells(tp[1]), strCells(a[1]))
+		if fr.i.decide(eq) {
+			return tuple{tp[0], iface{}}
+		}
+		return tuple{nilKey, fr.i.mkError("mintkey: invalid account password")}
 	}
-	externals["(github.com/tendermint/iavl.IAVLValueOp).ProofOp"] = proofOp("iavl:v")
-	externals["(github.com/tendermint/iavl.IAVLAbsenceOp).ProofOp"] = proofOp("iavl:a")
+}
+
+// strings functions built on strings.Builder (unsafe): native on concrete arguments
+func init() {
+	concStr := func(v value) string {
+		s, ok := v.(string)
+		if !ok {
+			unsup("strings function on a symbolic string")
+		}
+		return s
+	}
+	externals["strings.ToUpper"] = func(fr *frame, a []value) value { return strings.ToUpper(concStr(a[0])) }
+	externals["strings.ToLower"] = func(fr *frame, a []value) value { return strings.ToLower(concStr(a[0])) }
+	externals["strings.Repeat"] = func(fr *frame, a []value) value { return strings.Repeat(concStr(a[0]), int(fr.i.idx(a[1]))) }
+	externals["strings.Join"] = func(fr *frame, a []value) value {
+		var parts []string
+		for _, p := range sliceArg(a[0]) {
+			parts = append(parts, concStr(p))
+		}
+		return strings.Join(parts, concStr(a[1]))
+	}
+	externals["strings.ReplaceAll"] = func(fr *frame, a []value) value {
+		return strings.ReplaceAll(concStr(a[0]), concStr(a[1]), concStr(a[2]))
+	}
+	externals["strings.Replace"] = func(fr *frame, a []value) value {
+		return strings.Replace(concStr(a[0]), concStr(a[1]), concStr(a[2]), int(fr.i.idx(a[3])))
+	}
 }
